@@ -778,6 +778,36 @@ impl<'ast> Visit<'ast> for LoopFinder {
                 }
             }
         }
+        // D65: BUF.extend(X.iter().enumerate().map(|(I, P)| BODY))
+        if e.method == "extend" && e.args.len() == 1 {
+            if let syn::Expr::MethodCall(mp) = &e.args[0] {
+                if mp.method == "map" && mp.args.len() == 1 {
+                    if let (syn::Expr::Closure(c), syn::Expr::MethodCall(en)) = (&mp.args[0], &*mp.receiver) {
+                        if en.method == "enumerate" && en.args.is_empty() && c.inputs.len() == 1 {
+                            if let (syn::Expr::MethodCall(it), syn::Pat::Tuple(pt)) = (&*en.receiver, &c.inputs[0]) {
+                                if it.method == "iter" && it.args.is_empty() && pt.elems.len() == 2
+                                    && matches!(pt.elems[0], syn::Pat::Ident(_)) && matches!(pt.elems[1], syn::Pat::Ident(_)) {
+                                    let mut ef = EscapeFinder::default();
+                                    ef.visit_expr(&c.body);
+                                    if ef.escapes == 0 {
+                                        let call = e.span().byte_range();
+                                        let buf = e.receiver.span().byte_range();
+                                        let recv = it.receiver.span().byte_range();
+                                        let p0 = pt.elems[0].span().byte_range();
+                                        let p1 = pt.elems[1].span().byte_range();
+                                        let body = c.body.span().byte_range();
+                                        self.vd.push(format!(
+                                            "{{\"rule\":\"D65\",\"call\":[{},{}],\"buf\":[{},{}],\"recv\":[{},{}],\"idx\":[{},{}],\"pat\":[{},{}],\"body\":[{},{}]}}",
+                                            call.start, call.end, buf.start, buf.end, recv.start, recv.end, p0.start, p0.end, p1.start, p1.end, body.start, body.end
+                                        ));
+                                    }
+                                }
+                            }
+                        }
+                    }
+                }
+            }
+        }
         // D53: X.iter().enumerate().for_each(|(I, P)| BODY)
         if e.method == "for_each" && e.args.len() == 1 {
             if let (syn::Expr::Closure(c), syn::Expr::MethodCall(en)) = (&e.args[0], &*e.receiver) {
